@@ -339,7 +339,7 @@ def _run(plan, base):
     if auto:
         w = _gen_world(r, tier)
         knobs = _gen_knobs(r)
-        nsteps = r.choice([1, 2, 2, 3, 3, 4, 6])
+        nsteps = r.choice([1, 2, 2, 3, 3, 4, 6] + ([8, 10] if tier == "thorough" else []))      # deeper histories in the thorough tier
         sel_seed = r.randrange(1 << 30)
         steps_in = None
     else:
@@ -364,7 +364,7 @@ def _run(plan, base):
         i = 0
         while i < nsteps:
             if auto:
-                st = _next_step(r, model, W.fs, w["ns"], nfaults)
+                st = _next_step(r, model, W.fs, w["ns"], nfaults if tier != "thorough" else nfaults - 1)     # thorough: up to three faults per history
                 if st is None:
                     break
             else:
@@ -421,7 +421,7 @@ def _exec_step(W, st, model, log, stats, bump, seed, progress=False):
     if fault and fault.get("auto"):
         dr = session.dry_run(W.root, do_step, st, W.cfg, pool_seed, read_events=True)
         fr = rng_of(fault["rseed"])
-        fault = session.place_fault(fr, dr["events"], eligible, kinds=("kill", "kill", "io_error", "io_error", "torn", "torn", "interrupt"))
+        fault = session.place_fault(fr, dr["events"], eligible, kinds=("kill", "kill", "io_error", "io_error", "torn", "torn", "interrupt", "short"))
         st["fault"] = fault
     if st.get("replace_content") is not None:
         W.replace_content(st["replace_content"])
@@ -432,7 +432,7 @@ def _exec_step(W, st, model, log, stats, bump, seed, progress=False):
     stats["steps"] += len(res["events"])
     if not progress:
         stats.setdefault("_step_events", []).append(res["events"])
-    fired = res["fired"] if res["fired"] and res["fired"]["kind"] in ("kill", "torn", "io_error", "interrupt") else None
+    fired = res["fired"] if res["fired"] and res["fired"]["kind"] in ("kill", "torn", "io_error", "interrupt", "short") else None
     out = res["outcome"]
     failed = fired is not None or (out is not None and "exc" in out) or out is None
     after = W.observe()
@@ -452,6 +452,8 @@ def _exec_step(W, st, model, log, stats, bump, seed, progress=False):
         lc = label_class(fired["label"])
         if fired["kind"] == "torn":
             bump("probes", "torn_write_in_chunk")
+        if fired["kind"] == "short":
+            bump("probes", "short_transfer_then_error")
         if fired["kind"] == "kill" and lc.startswith("unlink"):
             bump("probes", "kill_between_publish_and_unlink")
         if fired["kind"] == "kill" and (lc.startswith("rename") or lc.startswith("move")):
@@ -521,6 +523,18 @@ def _exec_step(W, st, model, log, stats, bump, seed, progress=False):
                 raise Violation("C02.L", f"{sig0}:scratch-result", f"decompress_to_scratch returned {rel} which is {state} | " + ctx)
             if st.get("scratch_dir") and not outp.with_suffix(".meta").exists():
                 raise Violation("C02.R", f"{sig0}:scratch-meta", "no metadata copied next to the scratch file | " + ctx)
+            if st.get("scratch_dir") and sha1_file(outp.with_suffix(".meta")) != W.meta_sha:
+                raise Violation("C02.R", f"{sig0}:scratch-meta-content", "the metadata next to the scratch file is not a copy of the recording's metadata | " + ctx)
+            if st.get("scratch_dir"):
+                # the scratch copy is what the caller goes on to read: it must open as the same recording
+                try:
+                    ss = spikeglx.Reader(outp)
+                    ok_ = tuple(ss.shape) == (W.w["ns"], W.nc) and np.array_equal(ss[0:5, :], spikeglx.Reader(W.oracle / f"{STEM}.ap.bin")[0:5, :])
+                    ss.close()
+                except Exception as e:
+                    raise Violation("C02.R", f"{sig0}:scratch-open:{type(e).__name__}", f"the scratch copy does not open: {e!r} | " + ctx)
+                if not ok_:
+                    raise Violation("C02.R", f"{sig0}:scratch-open-differs", "the scratch copy opens as a different recording | " + ctx)
         if op == "inplace_cycle" and not (out["ok"]["same"] and out["ok"]["is_mtscomp"]):
             raise Violation("C02.T", f"{sig0}:cycle-read", "reads through the carried Reader differ across the in-place cycle | " + ctx)
         want_shape = [W.w["ns"], W.nc]
@@ -711,10 +725,10 @@ def sweep_plans(tier, verif_seed):
                 if not eligible(lab):
                     continue
                 op = lab.split(":", 1)[0]
-                kinds = ["kill", "io_error", "interrupt"] + (["torn"] if op in ("write", "tofile") else [])
+                kinds = ["kill", "io_error", "interrupt"] + (["torn", "short"] if op in ("write", "tofile") else []) + (["short"] if op == "copy" else [])
                 for kind in kinds:
                     f = {"kind": kind, "at": k, "label": lab}
-                    if kind == "torn":
+                    if kind in ("torn", "short"):
                         f["tear"] = 0.5
                     yield {"property": PROP, "seed": s, "world": w, "knobs": knobs, "sel_seed": s % 100000,
                            "steps": [dict(x) for x in pre] + [dict(tgt, fault=f)], "sweep_of": b}
